@@ -49,7 +49,8 @@ func (p *Program) TStep(n TNode, k int) (next TNode, feasible bool) {
 		return TNode{}, false
 	}
 	if n.From >= 0 || n.Sel != "" {
-		if v, known := p.threadCondN(n); known {
+		v, known := p.threadCondN(n)
+		if known {
 			if (k == 0) != v {
 				return TNode{}, false
 			}
@@ -102,14 +103,17 @@ func (p *Program) trackedPhis(fn *ssa.Function) map[*ssa.Phi]bool {
 		switch x := v.(type) {
 		case *ssa.Phi:
 			if x.Block() != b {
+				if m[x] {
+					return
+				}
 				m[x] = true
-			} else {
-				// a value merged here may itself be a merge made earlier
-				// (`a || b` overwritten on one branch, then tested)
-				for _, e := range x.Edges {
-					if ph, ok := e.(*ssa.Phi); ok && ph.Block() != b {
-						walk(ph, b, d+1)
-					}
+			}
+			// a merged value may itself be a merge made earlier (`a || b`
+			// overwritten on one branch, then tested; a helper's result
+			// variable assigned at several returns): follow the operands
+			for _, e := range x.Edges {
+				if ph, ok := e.(*ssa.Phi); ok && ph.Block() != b {
+					walk(ph, b, d+1)
 				}
 			}
 		case *ssa.UnOp:
@@ -168,6 +172,7 @@ func getSel(sel, name string) int {
 // resolveN reads v on the path described by n: phis of n.B by the edge the
 // path entered through, tracked phis of other blocks by the recorded choice.
 func resolveN(v ssa.Value, n TNode) ssa.Value {
+	v = fwdLoad(v)
 	for i := 0; i < 6; i++ {
 		ph, ok := v.(*ssa.Phi)
 		if !ok {
@@ -258,6 +263,7 @@ func condUsesOwnPhi(v ssa.Value, b *ssa.BasicBlock, depth int) bool {
 	if depth > 3 {
 		return false
 	}
+	v = fwdLoad(v)
 	switch x := v.(type) {
 	case *ssa.Phi:
 		return x.Block() == b
@@ -280,7 +286,41 @@ func (p *Program) threadCond(b *ssa.BasicBlock, from int) (val, known bool) {
 	return p.evalThreaded(iff.Cond, b, from, 0)
 }
 
+// fwdLoad: a load of a local cell that the same block has just stored (a
+// variable captured by a closure lives in a cell: `x = φ; if x != nil` reads
+// it back) is the stored value, when nothing between store and load can
+// write the cell.
+func fwdLoad(v ssa.Value) ssa.Value {
+	u, ok := v.(*ssa.UnOp)
+	if !ok || u.Op != token.MUL {
+		return v
+	}
+	al, ok := u.X.(*ssa.Alloc)
+	if !ok {
+		return v
+	}
+	b := u.Block()
+	pos := -1
+	for i, in := range b.Instrs {
+		if in == ssa.Instruction(u) {
+			pos = i
+		}
+	}
+	for i := pos - 1; i >= 0; i-- {
+		switch x := b.Instrs[i].(type) {
+		case *ssa.Store:
+			if x.Addr == ssa.Value(al) {
+				return x.Val
+			}
+		case ssa.CallInstruction:
+			return v // a call may run a closure that writes the cell
+		}
+	}
+	return v
+}
+
 func selPhi(v ssa.Value, b *ssa.BasicBlock, from int) ssa.Value {
+	v = fwdLoad(v)
 	for i := 0; i < 4; i++ {
 		ph, ok := v.(*ssa.Phi)
 		if !ok || ph.Block() != b || from >= len(ph.Edges) {
